@@ -431,10 +431,18 @@ def _ring_plan(rng, k, locals_):
 
 def c06(res, wd):
     # model: one host (one local player) + one spectator, exhaustive; catch-up settings scaled down
-    held, cex = engines.mc_system(res, wd, "h1s_f3", {"Peers": "GenPeers1s", "NumPlayers": 1, "Window": 2, "MaxFrame": 3,
-                                                     "MaxBehind": 1, "Catchup": 2}, timeout=600)
-    if not held:
-        engines.confirm_on_impl(res, "C06", wd, "h1s_f3", cex, {"C06"})
+    # (TLC's disk-backed state queue fails on these states - "fcnRcd is null" -, the in-memory queue does not)
+    models = [("h1s_f4", {"Peers": "GenPeers1s", "NumPlayers": 1, "Window": 2, "MaxFrame": 4, "MaxBehind": 1,
+                          "Catchup": 2, "LinkCap": 2, "InboxCap": 2, "Granular": "TRUE"}),
+              # two players on two peers, the spectator watches peer 1: rollbacks on the host side
+              ("h2s_f2", {"Peers": "GenPeers2s", "NumPlayers": 2, "Window": 1, "MaxFrame": 2, "MaxBehind": 1,
+                          "Catchup": 2})]
+    if res.tier == "thorough":
+        models[0] = ("h1s_f5", dict(models[0][1], MaxFrame=5))
+    for name, over in models:
+        held, cex = engines.mc_system(res, wd, name, over, timeout=1500, memqueue=True)
+        if not held:
+            engines.confirm_on_impl(res, "C06", wd, name, cex, {"C06"})
     ns, depth = sizes(res.tier, (6, 100), (40, 160))
     engines.s2i_runs(res, "C06", wd, "g1s", {"Peers": "GenPeers1s", "NumPlayers": 1, "MaxFrame": 8, "MaxBehind": 1,
                                              "Catchup": 3, "MaxSteps": depth - 10}, ns, depth, {"C06"})
